@@ -18,8 +18,14 @@ def sh(cmd, cwd, timeout=1500):
         return 124, "TIMEOUT"
 
 def main():
-    pid = sys.argv[1]
-    ks = sys.argv[2:] or ["1", "2", "3"]
+    flags = [a for a in sys.argv[1:] if a.startswith("--")]
+    argv = [a for a in sys.argv[1:] if not a.startswith("--")]
+    REF = "--refactors" in flags
+    R2 = "--round2" in flags
+    pid = argv[0]
+    ks = argv[1:] or (["1", "2", "3", "4"] if REF else ["1", "2", "3"])
+    SRC = "/tmp/ref-%s-out/r%%s" % pid if REF else ("/tmp/mut2-%s-out/m%%s" % pid if R2 else "/tmp/mut-%s-out/m%%s" % pid)
+    DSTK = "r" if REF else ("n" if R2 else "m")
     base = json.load(open("/root/.vp/BASELINE.json"))
     stable = set(base["stable_pass"])
     wt = "/tmp/vm-%s" % pid
@@ -30,7 +36,7 @@ def main():
     results = {}
     try:
         for k in ks:
-            src = "/tmp/mut-%s-out/m%s" % (pid, k)
+            src = SRC % k
             if not os.path.exists(src + "/patch.diff"):
                 results[k] = {"ok": False, "why": "no patch.diff"}
                 continue
@@ -65,6 +71,16 @@ def main():
                 r["why"] = "stable tests no longer pass: %s" % missing[:5]
                 results[k] = r
                 continue
+            if REF:
+                dst = "/verif/seeded/%s/r%s" % (pid, k)
+                os.makedirs(dst, exist_ok=True)
+                shutil.copy(src + "/patch.diff", dst + "/patch.diff")
+                meta = json.load(open(src + "/meta.json")) if os.path.exists(src + "/meta.json") else {}
+                meta["confirmed_by_orchestrator"] = {"when": time.strftime("%Y-%m-%dT%H:%M:%S"), "ran": ["git apply on a scratch worktree of /repo HEAD", "cargo nextest run --workspace --offline: all 59 stable baseline tests pass"]}
+                json.dump(meta, open(dst + "/meta.json", "w"), indent=1)
+                r["ok"] = True
+                results[k] = r
+                continue
             # demo with the patch
             rc, out = sh("git apply %s/demo.diff" % src, wt)
             if rc != 0:
@@ -73,7 +89,8 @@ def main():
                 continue
             cmd = open(src + "/demo_cmd.txt").read().strip()
             cmd_line = " && ".join(l for l in cmd.split("\n") if l.strip() and not l.strip().startswith("#"))
-            cmd_line = cmd_line.replace("/tmp/mut-%s-out" % pid, "@@OUT@@").replace("/tmp/mut-%s" % pid, wt).replace("@@OUT@@", "/tmp/mut-%s-out" % pid)
+            pre = "/tmp/mut2-%s" % pid if R2 else "/tmp/mut-%s" % pid
+            cmd_line = cmd_line.replace(pre + "-out", "@@OUT@@").replace(pre, wt).replace("@@OUT@@", pre + "-out")
             rc_with, out_with = sh(cmd_line, wt, timeout=1800)
             # demo without the patch
             sh("git apply -R %s/patch.diff" % src, wt)
@@ -99,7 +116,7 @@ def main():
                 r["why"] = "demo does not discriminate (rc with=%s, without=%s)" % (rc_with, rc_wo)
             results[k] = r
             if r["ok"]:
-                dst = "/verif/seeded/%s/m%s" % (pid, k)
+                dst = "/verif/seeded/%s/%s%s" % (pid, DSTK, k)
                 os.makedirs(dst, exist_ok=True)
                 for f in ("patch.diff", "demo.diff", "demo_cmd.txt"):
                     shutil.copy(src + "/" + f, dst + "/" + f)
@@ -118,8 +135,8 @@ def main():
         sh("git -C /repo worktree prune", "/")
         shutil.rmtree(TMP, ignore_errors=True)
     os.makedirs("/verif/seeded/%s" % pid, exist_ok=True)
-    json.dump(results, open("/verif/seeded/%s/confirm.json" % pid, "w"), indent=1)
+    json.dump(results, open("/verif/seeded/%s/confirm%s.json" % (pid, "" if DSTK == "m" else "_" + DSTK), "w"), indent=1)
     for k, r in results.items():
-        print(pid, "m" + k, "CONFIRMED" if r["ok"] else "REJECTED: " + r.get("why", "?")[:300])
+        print(pid, DSTK + k, "CONFIRMED" if r["ok"] else "REJECTED: " + r.get("why", "?")[:300])
 
 main()
